@@ -20,6 +20,9 @@ Definition fl_sub (a b : Z) : Z := bits_of_b64 (b64_minus mode_NE (b64_of_bits a
 
 Definition flocq_fops : fops := mkFops 0 fl_add fl_div_len fl_lt fl_frac_lt.
 
+(** Value(n) for an integer n (C20: the bound of generated values) *)
+Definition fl_of_int (n : Z) : Z := bits_of_b64 (b64_of_int n).
+
 (** float64 -> float32 conversion (round to nearest even), as Go's float32(f) *)
 Definition fl_f64_to_f32 (b : Z) : Z :=
   match b64_of_bits b with
